@@ -15,7 +15,7 @@ Turkish case mapping of 'i' / 'I'):
 
 so that every byte value >= 0x80 is, in some locale, a member of every <cctype> class a decoder or encoder could consult.
 `fingerprint()` is the number the harness computes from isupper .. isxdigit / toupper / tolower on the thread that makes the call;
-MANIFEST (name, fingerprint, description) tells the harness what it must see after installing a locale.
+MANIFEST (name, the two fingerprints, description) tells the harness what it must see after installing a locale.
 """
 import hashlib
 import os
@@ -85,16 +85,17 @@ def build_tables():
 
 
 def fingerprint(cls, up, lo):
-    """FNV-1a over (class bits, toupper, tolower) of the 256 byte values - calltime_main.cpp: ctype_fingerprint()"""
+    """two FNV-1a numbers over the 256 byte values: the class bits, and (toupper, tolower) - calltime_main.cpp: ctype_fingerprint()"""
     alpha = set(cls["alpha"]) | set(cls["upper"]) | set(cls["lower"])      # upper and lower are letters
     member = {k: set(v) for k, v in cls.items()}
     member["alpha"] = alpha
-    h = 2166136261
+    h, g = 2166136261, 2166136261
     for b in range(256):
         m = sum(BIT[k] for k in CLASSES if b in member[k])
-        for v in (m, up.get(b, b), lo.get(b, b)):
-            h = ((h ^ v) * 16777619) & 0xFFFFFFFF
-    return h
+        h = ((h ^ m) * 16777619) & 0xFFFFFFFF
+        for v in (up.get(b, b), lo.get(b, b)):
+            g = ((g ^ v) * 16777619) & 0xFFFFFFFF
+    return h, g
 
 
 def U(i):
@@ -131,8 +132,8 @@ def locale_dir():
     srcs = {n: source_text(t[1], t[2], t[3]) for n, t in tables.items()}
     ver = subprocess.run([tool, "--version"], stdout=subprocess.PIPE, stderr=subprocess.STDOUT, text=True).stdout.splitlines()[0]
     asc = ascii_tables()
-    manifest = "ascii %08x the C classification as check.py writes it (cross-check of the fingerprint function)\n" % fingerprint(*asc)
-    manifest += "".join("%s %08x %s\n" % (n, fingerprint(t[1], t[2], t[3]), t[0]) for n, t in tables.items())
+    manifest = "ascii %08x %08x the C classification as check.py writes it (cross-check of the fingerprint function)\n" % fingerprint(*asc)
+    manifest += "".join("%s %08x %08x %s\n" % ((n,) + fingerprint(t[1], t[2], t[3]) + (t[0],)) for n, t in tables.items())
     key = hashlib.sha256(("\0".join([ver, cm, manifest] + [srcs[n] for n in sorted(srcs)])).encode()).hexdigest()[:24]
     out = os.path.join(vlib.CACHE, "c13-locales-" + key)
     if os.path.exists(os.path.join(out, "MANIFEST")):
